@@ -104,7 +104,7 @@ impl Property for C04 {
                     } else if st.used_env && env_existential(&case.program) {
                         ":env-with-trait-params"
                     } else if st.co_cycle || (program_has_co_cycle(&case.program) && !goal_is_closed(g)) {
-                        co_qual(g, true)
+                        co_qual_st(g, &st, true)
                     } else {
                         ""
                     };
